@@ -59,6 +59,13 @@ def parse_op(s):
             return ("s", None)
         lo, hi = t.split("-")
         return ("s", (int(lo), int(hi)))
+    if h == "S":
+        if not t:
+            return ("S", None)
+        lo, hi = t.split("-")
+        return ("S", (int(lo), int(hi)))
+    if h == "m":
+        return ("m", [int(k) for k in t.split(",")])
     if h == "r":
         return ("r", None)
     raise ValueError(s)
@@ -80,13 +87,22 @@ def case_line(case):
     return hdr + " | " + " | ".join(" ".join(p) for p in case["progs"])
 
 
+def final_multiget(nkeys):
+    """the key list of the multi-get of `final` (mirrors harness c06.rs): every key twice in a row, then one absent key"""
+    ks = []
+    for k in range(nkeys):
+        ks += [k, k]
+    return ks + [nkeys]
+
+
 def ctl_ops(case):
     """the operations the controller thread itself issues, in order (mirrors harness c06.rs)"""
     ops = []
     for cmd in case.get("ctl") or ["startall", "joinall", "final"]:
         head = cmd.split(":")[0]
         if head == "final":
-            ops.append("s")
+            ops.append("S")
+            ops.append("m" + ",".join(str(k) for k in final_multiget(case["keys"])))
             ops.extend("g%d" % k for k in range(case["keys"]))
         elif head in ("arm", "start", "startall", "parked", "release", "join", "joinall", "flush", "reqflush", "sleep"):
             continue
@@ -100,7 +116,7 @@ def gen_case(rng, idx, tier):
     keys = rng.choice([2, 3, 4, 6, 8, 12, 24])
     optname, opts = OPTION_SETS[rng.below(len(OPTION_SETS))]
     nops = rng.choice([8, 20, 40, 80]) if tier == "quick" else rng.choice([20, 60, 150, 300])
-    style = rng.choice(["mixed", "mixed", "batchy", "hotkey", "readers-writers"])
+    style = rng.choice(["mixed", "mixed", "batchy", "hotkey", "readers-writers", "growing", "growing"])
     progs = []
     for t in range(nthreads):
         ops = []
@@ -109,6 +125,17 @@ def gen_case(rng, idx, tier):
             val = (t + 1) * 1000000 + i
             r = rng.below(100)
             key = 0 if (style == "hotkey" and rng.chance(2, 3)) else rng.below(keys)
+            if style == "growing":
+                # the key universe is opened up progressively: a batch names keys written before AND keys nobody has written yet
+                frontier = min(keys, 1 + (i * keys) // max(1, nops - 1))
+                key = rng.below(frontier)
+                if rng.chance(1, 3) and frontier >= 1:
+                    fresh = min(keys - 1, frontier)
+                    olds = sorted(set(rng.below(frontier) for _ in range(rng.range(1, 3))) - {fresh})
+                    ops.append("b" + ",".join("%d=%d" % (k, val) for k in olds + [fresh]))
+                    if rng.chance(2, 3):
+                        ops.append(rng.choice(["S", "S", "m" + ",".join(str(k) for k in final_multiget(keys))]))
+                    continue
             if reader_only:
                 r = 70 + rng.below(30)
             elif style == "batchy":
@@ -133,12 +160,27 @@ def gen_case(rng, idx, tier):
             elif r < 80:
                 ops.append("g%d" % key)
             else:
-                if rng.chance(1, 2) or keys < 2:
-                    ops.append("s")
+                form = rng.below(10)
+                if form < 3:
+                    # multi-get through one snapshot cursor: sorted, with repeats and an absent key now and then
+                    ks = sorted(rng.below(keys + 1) for _ in range(rng.range(1, 6)))
+                    if rng.chance(1, 2):
+                        j = rng.below(len(ks))
+                        ks.insert(j, ks[j])
+                    if rng.chance(1, 5):
+                        ks = [rng.below(keys) for _ in ks]          # unsorted now and then
+                    ops.append("m" + ",".join(str(k) for k in ks))
                 else:
-                    lo = rng.below(keys)
-                    hi = rng.range(lo, keys - 1)
-                    ops.append("s%d-%d" % (lo, hi))
+                    head = "S" if form < 7 else "s"
+                    if rng.chance(1, 2) or keys < 2:
+                        ops.append(head)
+                    else:
+                        lo = rng.below(keys)
+                        hi = rng.range(lo, keys - 1)
+                        ops.append("%s%d-%d" % (head, lo, hi))
+            if style == "growing" and ops[-1][0] in "bp" and rng.chance(1, 2):
+                # look at the store right after a write that may have created keys
+                ops.append(rng.choice(["S", "S", "m" + ",".join(str(k) for k in final_multiget(keys))]))
         progs.append(ops)
     return {"tag": "gen%d" % idx, "opts": opts + STALL_OFF, "optname": optname, "comp": rng.choice([0, 0, 1, 2]),
             "yield": rng.choice([0, 50, 200, 500, 800]), "seed": rng.below(1 << 30), "keys": keys, "progs": progs,
@@ -192,9 +234,15 @@ def forced_cases():
                 ctl = ["p0=1", "p1=2", "p2=3", "arm:%s:0:%d" % (pt, skip), "start:0", "parked:%s:0" % pt, "start:1", "sleep:30"]
                 if roll:
                     ctl += ["reqflush", "sleep:30"]
-                ctl += ["s", "g0", "g1", "g2", "g3", "release:%s:0" % pt, "joinall", "final"]
+                ctl += ["S", "m0,0,1,2,2,3", "g0", "g1", "g2", "g3", "release:%s:0" % pt, "joinall", "final"]
                 out.append(dict(base, tag="sys_%s%d_k%d_%s" % (pt, skip, other_key, "roll" if roll else "noroll"), keys=4, ctl=ctl,
                                 style="systematic", progs=[["b0=100,1=101,2=102"], ["p%d=200" % other_key, "g%d" % other_key]]))
+    # one thread, no concurrency: a snapshot cursor walked both ways and used as a multi-get right after batches
+    # that create keys as well as update existing ones, over memtable, immutable memtable and tree
+    out.append(dict(base, tag="snapshot_cursor_walks", keys=6,
+                    ctl=["p0=1", "p1=2", "b1=10,2=20", "S", "m0,1,1,2,3,3", "S1-2", "d1", "S", "m1,1,2", "b3=30,0=31", "S", "m3,3,0,0",
+                         "flush", "b4=40,1=41", "S", "m0,1,1,4,4,5", "S0-4", "flush", "d4", "b2=50,4=51", "S", "m2,2,4,4,5,5", "final"],
+                    progs=[[]]))
     # empty batch, duplicate keys in a batch (last write wins), delete + put of one key in one batch
     out.append(dict(base, tag="degenerate_batches", keys=3,
                     ctl=["e", "b0=1,0=2,1=3,0=~", "s", "g0", "g1", "b2=5,2=~,2=6", "s", "startall", "joinall", "final"],
@@ -309,10 +357,15 @@ class Convert:
             elif kind == "g":
                 self.emit("invget %d %d" % (tid, arg))
                 self.phase[tid] = "r_inv"
-            elif kind == "s":
+            elif kind in ("s", "S"):
                 lo, hi = ("-", "-") if arg is None else (str(arg[0]), str(arg[1]))
                 self.emit("invscan %d %s %s" % (tid, lo, hi))
-                op["pairs"] = []
+                op["pairs"], op["back"] = [], []
+                self.phase[tid] = "r_inv"
+            elif kind == "m":
+                # a multi-get is a snapshot of the whole store on which the model takes no cursor step
+                self.emit("invscan %d - -" % tid)
+                op["mg"] = []
                 self.phase[tid] = "r_inv"
             else:
                 self.phase[tid] = "reqflush"
@@ -323,8 +376,10 @@ class Convert:
                 self.bad(i, "ret without inv")
                 return
             op["ret"], op["status"] = i, b
-            if op["kind"] == "s" and b == 0:
+            if op["kind"] in ("s", "S") and b == 0:
                 self.emit("scannext %d none" % tid)
+                self.emit("retscan %d" % tid)
+            if op["kind"] == "m" and b == 0:
                 self.emit("retscan %d" % tid)
             if op["kind"] == "w" and ph != "idle" and b == 0:
                 self.bad(i, "write returned in phase " + ph)
@@ -426,6 +481,16 @@ class Convert:
             if c == (1 << 64) - 1:
                 self.bad(i, "scan returned a tombstone")
             self.emit("scannext %d %d %d" % (tid, b, c))
+        elif ph == "r_snapped" and what == "sturn":
+            pass
+        elif ph == "r_snapped" and what == "skb":
+            self.cur[tid]["back"].append((b, c))
+            if c == (1 << 64) - 1:
+                self.bad(i, "scan returned a tombstone")
+        elif ph == "r_snapped" and what == "mgv":
+            self.cur[tid]["mg"].append((b, None if c == (1 << 64) - 1 else c))
+            if c == (1 << 64) - 2:
+                self.bad(i, "multi-get returned a tombstone")
         elif what in ("link", "is_head", "unlink", "notify_head"):
             if ph in ("idle", "r_snapped", "r_inv"):
                 return          # other wait lists (none expected here), ignore
@@ -503,12 +568,47 @@ def oracle(case, hist, nevents):
         return r
 
     strong, weak = [], []
-    stats = {"reads": 0, "scans": 0, "gets": 0, "torn": 0, "ambiguous_cut": 0}
-    reads = [op for op in hist if op["kind"] in ("g", "s") and op["ret"] is not None and op["status"] == 0]
+    stats = {"reads": 0, "scans": 0, "gets": 0, "scans_both_ways": 0, "multigets": 0, "torn": 0, "ambiguous_cut": 0}
+
+    def observe(op):
+        """what one read operation saw through its ONE snapshot: a list of observation maps key -> value or
+        None (one map; two for a scan walked forward and backward), the keys it speaks about, shape problems"""
+        shape = []
+        if op["kind"] == "g":
+            kind, val = op.get("got", ("err", 0))
+            return [{op["arg"]: (val if kind == "val" else None)}], [op["arg"]], shape
+        if op["kind"] == "m":
+            obs = {}
+            for k, v in op["mg"]:
+                if k in obs and obs[k] != v:
+                    shape.append("multi-get %s read key %d twice through one snapshot cursor and got %s then %s (all: %s)" % (op["str"], k, obs[k], v, op["mg"]))
+                obs.setdefault(k, v)
+            if [k for k, _ in op["mg"]] != op["arg"]:
+                shape.append("multi-get %s answered for keys %s" % (op["str"], [k for k, _ in op["mg"]]))
+            return [obs], sorted(obs), shape
+        rng = range(case["keys"]) if op["arg"] is None else range(op["arg"][0], op["arg"][1] + 1)
+        keyset = list(rng)
+        walks = [("forward", op["pairs"])]
+        if op["kind"] == "S":
+            walks.append(("backward", list(reversed(op["back"]))))
+        out = []
+        for name, pairs in walks:
+            got = dict(pairs)
+            if len(got) != len(pairs) or [k for k, _ in pairs] != sorted(k for k, _ in pairs):
+                shape.append("scan %s (%s walk) returned keys out of order or twice: %s" % (op["str"], name, pairs))
+            if any(k not in keyset for k in got):
+                shape.append("scan %s (%s walk) returned a key outside its bounds: %s" % (op["str"], name, pairs))
+            out.append({k: got.get(k) for k in keyset})
+        if len(out) == 2 and out[0] != out[1]:
+            shape.append("scan %s: ONE snapshot cursor walked forward gave %s and walked backward gave %s" % (op["str"], op["pairs"], list(reversed(op["back"]))))
+        return out, keyset, shape
+
+    reads = [op for op in hist if op["kind"] in ("g", "s", "S", "m") and op["ret"] is not None and op["status"] == 0]
     reads.sort(key=lambda op: op["inv"])
     done = []                          # (ret position, chosen cut) of processed reads
     for op in reads:
         stats["reads"] += 1
+        stats[{"g": "gets", "s": "scans", "S": "scans_both_ways", "m": "multigets"}[op["kind"]]] += 1
         lo = 0
         for w in writes:
             if w["ret"] is not None and w["ret"] < op["inv"]:
@@ -517,42 +617,29 @@ def oracle(case, hist, nevents):
         for w in writes:
             if w["inv"] < op["ret"]:
                 hi = max(hi, w["seq"])
-        if op["kind"] == "g":
-            stats["gets"] += 1
-            kind, val = op.get("got", ("err", 0))
-            obs = {op["arg"]: (val if kind == "val" else None)}
-            keyset = [op["arg"]]
-        else:
-            stats["scans"] += 1
-            rng = range(case["keys"]) if op["arg"] is None else range(op["arg"][0], op["arg"][1] + 1)
-            keyset = list(rng)
-            got = dict(op["pairs"])
-            if len(got) != len(op["pairs"]) or [k for k, _ in op["pairs"]] != sorted(k for k, _ in op["pairs"]):
-                strong.append("scan %s returned keys out of order or twice: %s" % (op["str"], op["pairs"]))
-                weak.append(strong[-1])
-            if any(k not in keyset for k in got):
-                strong.append("scan %s returned a key outside its bounds: %s" % (op["str"], op["pairs"]))
-                weak.append(strong[-1])
-            obs = {k: got.get(k) for k in keyset}
-        feasible = [ts for ts in cuts if lo <= ts <= hi and all(value_at(k, ts) == obs[k] for k in keyset)]
+        obss, keyset, shape = observe(op)
+        strong.extend(shape)
+        weak.extend(shape)
+        feasible = [ts for ts in cuts if lo <= ts <= hi and all(value_at(k, ts) == obs[k] for obs in obss for k in keyset)]
         floor = max([c for (r, c) in done if r < op["inv"]], default=0)
         ok = [ts for ts in feasible if ts >= floor]
         who = "T%d op %d `%s` (events %d..%d)" % (op["tid"], op["idx"], op["str"], op["inv"], op["ret"])
         if not ok:
-            strong.append("%s observed %s: no cut of the sequence order in [%d,%d] (floor %d) explains it" % (who, obs, lo, hi, floor))
-            # the property text: per key, and per batch
-            per_key_sets = {}
-            for k in keyset:
-                per_key_sets[k] = [ts for ts in cuts if lo <= ts <= hi and value_at(k, ts) == obs[k]]
-                if not per_key_sets[k]:
-                    weak.append("%s key %d = %s is not the value of any write that could be current (stale or unwritten), cuts [%d,%d]" % (who, k, obs[k], lo, hi))
-            for w in writes:
-                ks = [k for k, _ in w["batch"] if k in per_key_sets and per_key_sets[k]]
-                newer = [k for k in ks if min(per_key_sets[k]) >= w["seq"]]
-                older = [k for k in ks if max(per_key_sets[k]) < w["seq"]]
-                if newer and older:
-                    stats["torn"] += 1
-                    weak.append("%s sees batch seq %d (%s) applied to keys %s and not to keys %s" % (who, w["seq"], w["str"], newer, older))
+            strong.append("%s observed %s: no cut of the sequence order in [%d,%d] (floor %d) explains it" % (who, obss, lo, hi, floor))
+            # the property text: per key, and per batch, for each walk of the snapshot
+            for obs in obss:
+                per_key_sets = {}
+                for k in keyset:
+                    per_key_sets[k] = [ts for ts in cuts if lo <= ts <= hi and value_at(k, ts) == obs[k]]
+                    if not per_key_sets[k]:
+                        weak.append("%s key %d = %s is not the value of any write that could be current (stale or unwritten), cuts [%d,%d]" % (who, k, obs[k], lo, hi))
+                for w in writes:
+                    ks = [k for k, _ in w["batch"] if k in per_key_sets and per_key_sets[k]]
+                    newer = [k for k in ks if min(per_key_sets[k]) >= w["seq"]]
+                    older = [k for k in ks if max(per_key_sets[k]) < w["seq"]]
+                    if newer and older:
+                        stats["torn"] += 1
+                        weak.append("%s sees batch seq %d (%s) applied to keys %s and not to keys %s" % (who, w["seq"], w["str"], newer, older))
             done.append((op["ret"], floor))
         else:
             if "ts" in op and op["ts"] not in ok and op["ts"] in cuts:
@@ -563,13 +650,8 @@ def oracle(case, hist, nevents):
         # returned: no total order of the writes respecting real time explains that, whatever the order
         seen = []                      # (ret, tid/op text, {seq of writes seen}), per read
         for op in reads:
-            if op["kind"] == "g":
-                kind, val = op.get("got", ("err", 0))
-                obs = {op["arg"]: (val if kind == "val" else None)}
-            else:
-                rng = range(case["keys"]) if op["arg"] is None else range(op["arg"][0], op["arg"][1] + 1)
-                got = dict(op["pairs"])
-                obs = {k: got.get(k) for k in rng}
+            obss, keyset, _ = observe(op)
+            obs = obss[0]
             sets = {k: [ts for ts in cuts if value_at(k, ts) == v] for k, v in obs.items()}
             sees, misses = set(), set()
             for w in writes:
@@ -711,6 +793,8 @@ def run(chk):
         strong, weak, ost = oracle(c, r["hist"], r["nevents"])
         stats["gets"] += ost.get("gets", 0)
         stats["scans"] += ost.get("scans", 0)
+        stats["scans_both_ways"] = stats.get("scans_both_ways", 0) + ost.get("scans_both_ways", 0)
+        stats["multigets"] = stats.get("multigets", 0) + ost.get("multigets", 0)
         for op in r["hist"]:
             stats["ops"] += 1
             if op["kind"] == "w":
@@ -719,7 +803,7 @@ def run(chk):
         # a read whose snapshot lies between some write's sequence assignment and its completion
         inflight = 0
         for op in r["hist"]:
-            if op["kind"] in ("g", "s") and "snap" in op:
+            if op["kind"] in ("g", "s", "S", "m") and "snap" in op:
                 for w in r["hist"]:
                     if w["kind"] == "w" and w.get("seq") and w["inv"] < op["snap"] and (w.get("done") or 10**12) > op["snap"] and w.get("seq", 0) > op.get("ts", 0):
                         inflight += 1
